@@ -197,6 +197,14 @@ func conv(d drive.TypeDesc, v model.Value) verdict {
 			return r
 		}
 	case "struct":
+		if isWrapper(d) && len(d.Fields) != 2 {
+			// an annotations field next to several (or no) other fields is not the
+			// documented two-field wrapper: only an Ion struct can fill it
+			if v.Kind == model.Struct {
+				return anything
+			}
+			return errOnly
+		}
 		if isWrapper(d) {
 			if v.Kind == model.Struct {
 				return anything // indistinguishable from the wrapper itself
@@ -435,6 +443,12 @@ func c17Targets() []drive.TypeDesc {
 			drive.TypeDesc{K: "struct", Fields: []drive.FieldDesc{{Name: "F", T: e}}},
 			drive.TypeDesc{K: "struct", Fields: []drive.FieldDesc{{Name: "V", T: e}, {Name: "Ann", Tag: ",annotations", T: td("anntokens")}}})
 	}
+	ann := drive.FieldDesc{Name: "Tags", Tag: ",annotations", T: td("anntokens")}
+	out = append(out, drive.TypeDesc{K: "struct", Fields: []drive.FieldDesc{{Name: "X", T: td("int")}, {Name: "Y", T: td("int")}, ann}},
+		drive.TypeDesc{K: "struct", Fields: []drive.FieldDesc{{Name: "X", T: td("iface")}, {Name: "Y", T: td("string")}, {Name: "Z", T: td("bool")}, ann}},
+		drive.TypeDesc{K: "struct", Fields: []drive.FieldDesc{ann}})
+	three := drive.TypeDesc{K: "struct", Fields: []drive.FieldDesc{{Name: "X", T: td("int")}, {Name: "Y", T: td("int")}, ann}}
+	out = append(out, wrap("slice", three, 0))
 	out = append(out, wrap("slice", wrap("slice", td("int"), 0), 0), wrap("map", wrap("slice", td("int"), 0), 0),
 		drive.TypeDesc{K: "struct", Fields: []drive.FieldDesc{{Name: "F", T: td("int32")}, {Name: "G", Tag: "g", T: td("string")}}})
 	return out
